@@ -13,6 +13,7 @@ from ..core import *
 from ..logic import *
 from ..report import Obl, Rule
 from .. import build
+from . import gating
 
 PROP = 'C08'
 RULES = [
@@ -502,34 +503,16 @@ def r6_hook_not_gated(facts):
     if hook is None:
         raise build.AnalysisBroken('C08.R6: ST_SONG_BEGIN_HOOK not found')
     n = 0
-    for b, j, st in he.cfg.returns():
-        gf = guard_facts(he, b, st)
-        txt = ' '.join(fact_str(f) for f in gf)
-        if not ('m_trackSolo' in txt or 'm_trackDisable' in txt):
-            continue
+    E_ = {'T_SPECIAL': facts.enums.get('T_SPECIAL'), 'ST_SONG_BEGIN_HOOK': hook}
+    if E_['T_SPECIAL'] is None:
+        raise build.AnalysisBroken('C08.R6: T_SPECIAL not found')
+    for b, j, st, gf in gating.gating_returns(he):
         n += 1
-        ok = False
-        def alts(f):
-            # an `or` fact is a list of alternatives, each a list of literals
-            if f[0] == 'or':
-                return [a for a in f[1]]
-            return [[f]]
-        for f in gf:
-            # the negation of (type == T_SPECIAL && subtype == HOOK): an `or` with exactly the alternatives type != T_SPECIAL, subtype != HOOK
-            if f[0] != 'or':
-                continue
-            al = alts(f)
-            has_hook = False
-            for a in al:
-                for lit in a:
-                    nn = cmp_norm(lit) if lit[0] == 'cmp' else None
-                    if nn and nn[0] == '!=' and nn[2] == hook and mentions(nn[1], member_named('subtype')) and len(a) == 1:
-                        has_hook = True
-            if has_hook and len(al) <= 2:
-                ok = True
+        # no song-begin event reaches the return: its guard contradicts "type == T_SPECIAL && subtype == ST_SONG_BEGIN_HOOK"
+        ok = gating.excluded(gf, gating.hook_event(he, E_))
         out.append(Obl('C08.R6', he.name, 'track gating does not drop the song-begin event', st['loc'], 'discharged' if ok else 'finding',
                        why='the gating return is reached only for events other than ST_SONG_BEGIN_HOOK' if ok else
                        'with a track soloed (or track 0 switched off) the synthetic song-begin event is dropped with the rest of track 0: the state reset of a seek / rewind never runs'))
-    if n < 2:
+    if n < 1:
         raise build.AnalysisBroken('C08.R6: track gating returns of handleEvent not found')
     return out
